@@ -159,6 +159,62 @@ def enc_record(rid, d, legacy):
     return rec, bytes(raw)
 
 
+def assign(m, d):
+    """Bring an existing message object to the field values of d by plain assignment;
+    a burst of the same length is changed in place."""
+    m.ver, m.fn, m.tn = d["ver"], d["fn"], d["tn"]
+    new = d["burst"]["bits"] if d["burst"]["has"] else None
+    if d["cls"] == "tx":
+        m.pwr = d["pwr"]
+        if new is not None and m.burst is not None and len(m.burst) == len(new):
+            for i, b in enumerate(new):
+                m.burst[i] = b
+        else:
+            m.burst = bytearray(new) if new is not None else None
+    else:
+        m.rssi, m.toa256 = d["rssi"], d["toa"]
+        if d["ver"] >= 1:
+            m.nope_ind, m.mod_type, m.tsc_set, m.tsc, m.ci = d["nope"], MODOF[d["mod"]], d["tscset"], d["tsc"], d["ci"]
+        if new is not None and m.burst is not None and len(m.burst) == len(new):
+            for i, b in enumerate(new):
+                m.burst[i] = b
+        else:
+            m.burst = array("b", new) if new is not None else None
+
+
+_DECODERS = {}
+
+
+def parse_reused(cls, raw):
+    """Parse with a long-lived decoder object (one per class), as a tool that keeps
+    one message object around would."""
+    m = _DECODERS.get(cls)
+    if m is None:
+        m = _DECODERS[cls] = data_msg.TxMsg() if cls == "tx" else data_msg.RxMsg()
+    try:
+        m.parse_msg(bytearray(raw))
+    except ValueError:
+        return dict(ok=False, exc="ValueError")
+    except Exception as e:
+        return dict(ok=False, exc=type(e).__name__)
+    return dict(ok=True, exc="", m=tx_decoded(m) if cls == "tx" else rx_decoded(m))
+
+
+def enc_record_reused(rid, m, d, legacy):
+    """Re-encode an existing message object after its fields were re-assigned to d."""
+    assign(m, d)
+    rec = dict(id=rid, e="enc", cls=d["cls"], m=d, legacy=bool(legacy), reused=True)
+    try:
+        raw = m.gen_msg(legacy)
+    except Exception as e:
+        rec.update(raw=[], err=type(e).__name__, dec=dict(ok=False))
+        return rec
+    rec["raw"] = list(raw)
+    rec["err"] = ""
+    rec["dec"] = parse_reused(d["cls"], bytes(raw))
+    return rec
+
+
 def parse_any(cls, raw):
     m = data_msg.TxMsg() if cls == "tx" else data_msg.RxMsg()
     try:
